@@ -19,7 +19,7 @@ TECHNIQUE = ('deterministic simulation: twin continuations from a forked '
              'database, statement-trace counting via '
              'connection.execute_wrapper')
 PLAN = {
-    'quick': {'count': 220, 'max_wall': 170, 'shrink_budget': 25,
+    'quick': {'count': 320, 'max_wall': 170, 'shrink_budget': 25,
               'shrink_wall': 120},
     'thorough': {'count': 4000, 'max_wall': 1700, 'shrink_budget': 60,
                  'shrink_wall': 300},
